@@ -228,15 +228,16 @@ int reb_binary_diff(char* buf1, size_t size1, char* buf2, size_t size2, char** b
                 }
             }else if (strcmp(reb_binary_field_descriptor_for_type(field1.type).name, "var_config")==0){
                 // Compare all members except the pointer to the simulation (an address, not a property of the simulation).
-                struct reb_variational_configuration* vc1 = (struct reb_variational_configuration*)(buf1+pos1);
-                struct reb_variational_configuration* vc2 = (struct reb_variational_configuration*)(buf2+pos2);
                 for (unsigned int i=0;i<field1.size/sizeof(struct reb_variational_configuration);i++){
-                    fields_differ |= (vc1[i].order != vc2[i].order);
-                    fields_differ |= (vc1[i].index != vc2[i].index);
-                    fields_differ |= (vc1[i].testparticle != vc2[i].testparticle);
-                    fields_differ |= (vc1[i].index_1st_order_a != vc2[i].index_1st_order_a);
-                    fields_differ |= (vc1[i].index_1st_order_b != vc2[i].index_1st_order_b);
-                    fields_differ |= (vc1[i].lrescale != vc2[i].lrescale);
+                    struct reb_variational_configuration vc1, vc2; // buffers are not aligned, copy first
+                    memcpy(&vc1, buf1+pos1+i*sizeof(struct reb_variational_configuration), sizeof(struct reb_variational_configuration));
+                    memcpy(&vc2, buf2+pos2+i*sizeof(struct reb_variational_configuration), sizeof(struct reb_variational_configuration));
+                    fields_differ |= (vc1.order != vc2.order);
+                    fields_differ |= (vc1.index != vc2.index);
+                    fields_differ |= (vc1.testparticle != vc2.testparticle);
+                    fields_differ |= (vc1.index_1st_order_a != vc2.index_1st_order_a);
+                    fields_differ |= (vc1.index_1st_order_b != vc2.index_1st_order_b);
+                    fields_differ |= (vc1.lrescale != vc2.lrescale);
                 }
             }else{
                 if (memcmp(buf1+pos1,buf2+pos2,field1.size)!=0){
